@@ -1059,7 +1059,7 @@ def code_of(m: str) -> str:
     mm = LINE.match(m)
     if not mm:
         return "text"
-    c = re.search(r"\[([a-z0-9-]+)\]$", mm.group("msg"))
+    c = re.search(r"\[([a-z0-9-]+)\]$", mm.group("msg")) if mm.group("sev") != "note" else None   # notes print no code
     if c:
         return c.group(1)
     if mm.group("sev") == "note":
@@ -1518,23 +1518,193 @@ DK = [
 ]
 
 
+GEN_X = TYP + "T = TypeVar('T')\nclass X(Generic[T]):\n    def __init__(self) -> None:\n        pass\n    def get(self) -> T:\n        return None  # type: ignore\n"
+A_F = "class A:\n    def f(self, a: int) -> int:\n        return 1\n"
+
+# (name, {file: text} before, {file: new text or None} = the edit).  Second table: the construct that must be
+# re-resolved sits in a module that is only REPROCESSED (never re-parsed: the edit is elsewhere) — one scenario per
+# field that server/aststrip.py NodeStripVisitor resets — and the remaining visit_* of server/deps.py.
+DK2 = [
+    # ---- aststrip: IndexExpr.analyzed (type application <-> indexing a value)
+    ("strip-index-typeapp-func", {"p.py": GEN_X, "c.py": "import p\ndef f() -> None:\n    y = p.X[int]\n    z: str = y\n"},
+     {"p.py": TYP + "X: List[int] = []\n"}),
+    ("strip-index-typeapp-top", {"p.py": GEN_X, "c.py": "import p\ny = p.X[int]\nz: str = y\n"},
+     {"p.py": TYP + "X: List[int] = []\n"}),
+    ("strip-index-typeapp-from", {"p.py": GEN_X, "c.py": "from p import X\ndef f() -> None:\n    y = X[int]()\n    z: str = y.get()\n"},
+     {"p.py": TYP + "X: List[int] = []\n"}),
+    ("strip-index-alias-def", {"p.py": GEN_X, "c.py": "import p\nA = p.X[int]\ndef f(a: A) -> str:\n    return a.get()\n"},
+     {"p.py": TYP + "X: List[int] = []\n"}),
+    # ---- aststrip: CallExpr.analyzed (NewType / NamedTuple / TypeVar / cast calls)
+    ("strip-call-newtype", {"p.py": "class X:\n    pass\n", "c.py": TYP + "import p\nN = NewType('N', p.X)\ndef f() -> None:\n    N(p.X())\n    N(1)\n"},
+     {"p.py": "X = int\n"}),
+    ("strip-call-namedtuple", {"p.py": "Al = int\n", "c.py": TYP + "import p\nNT = NamedTuple('NT', [('a', p.Al)])\ndef f(n: NT) -> int:\n    return n.a\n"},
+     {"p.py": "Al = str\n"}),
+    ("strip-call-typevar", {"p.py": "class X:\n    pass\nclass Y(X):\n    pass\n", "c.py": TYP + "import p\nTV = TypeVar('TV', bound=p.X)\ndef ident(a: TV) -> TV:\n    return a\ndef f() -> None:\n    ident(p.Y())\n"},
+     {"p.py": "class X:\n    pass\nclass Y:\n    pass\n"}),
+    ("strip-call-cast-kind", {"p.py": "class X:\n    x: int = 0\n", "c.py": TYP + "import p\ndef f(o: object) -> int:\n    return cast(p.X, o).x\n"},
+     {"p.py": "def X() -> int:\n    return 1\n"}),
+    ("strip-call-kind", {"p.py": "def mk(a: int) -> int:\n    return a\n", "c.py": "import p\nv = p.mk(1)\ndef f() -> int:\n    return v\n"},
+     {"p.py": "class mk:\n    def __init__(self, a: int) -> None:\n        pass\n"}),
+    # ---- aststrip: RefExpr kind/node (name and member expressions)
+    ("strip-name-kind", {"p.py": "def g(a: int) -> int:\n    return a\n", "c.py": "from p import g\ndef f() -> int:\n    return g(1)\n"},
+     {"p.py": "class g:\n    def __init__(self, a: int) -> None:\n        pass\n"}),
+    ("strip-member-kind", {"p.py": "v: int = 0\n", "c.py": "import p\ndef f() -> int:\n    return p.v\n"},
+     {"p.py": "def v() -> int:\n    return 0\n"}),
+    ("strip-name-var-to-alias", {"p.py": "K = int\n", "c.py": "from p import K\ndef f(a: K) -> int:\n    return a\n"},
+     {"p.py": "K = 1\n"}),
+    # ---- aststrip: SuperExpr.info ; deps: visit_super_expr through an intermediate base gaining / losing the method
+    ("super-middle-gains-method", {"p.py": A_F, "q.py": "from p import A\nclass B(A):\n    pass\n",
+                                   "c.py": "from q import B\nclass C(B):\n    def g(self) -> int:\n        return super().f(1)\n"},
+     {"q.py": "from p import A\nclass B(A):\n    def f(self, a: str) -> int:  # type: ignore[override]\n        return 2\n"}),
+    ("super-middle-gains-method-ret", {"p.py": A_F, "q.py": "from p import A\nclass B(A):\n    pass\n",
+                                       "c.py": "from q import B\nclass C(B):\n    def g(self) -> int:\n        return super().f(1)\n"},
+     {"q.py": "from p import A\nclass B(A):\n    def f(self, a: int) -> str:  # type: ignore[override]\n        return ''\n"}),
+    ("super-init-middle", {"p.py": "class A:\n    def __init__(self, a: int) -> None:\n        pass\n", "q.py": "from p import A\nclass B(A):\n    pass\n",
+                           "c.py": "from q import B\nclass C(B):\n    def __init__(self) -> None:\n        super().__init__(1)\n"},
+     {"q.py": "from p import A\nclass B(A):\n    def __init__(self) -> None:\n        super().__init__(1)\n"}),
+    ("super-new-middle", {"p.py": "class A:\n    def __new__(cls, a: int) -> 'A':\n        return object.__new__(cls)\n", "q.py": "from p import A\nclass B(A):\n    pass\n",
+                          "c.py": "from q import B\nclass C(B):\n    def __new__(cls) -> 'C':\n        super().__new__(cls, 1)\n        return object.__new__(cls)\n"},
+     {"q.py": "from p import A\nclass B(A):\n    def __new__(cls) -> 'B':\n        return object.__new__(cls)\n"}),
+    ("super-base-of-base-changes", {"p.py": A_F, "q.py": "from p import A\nclass B(A):\n    pass\n",
+                                    "c.py": "from q import B\nclass C(B):\n    def g(self) -> int:\n        return super().f(1)\n"},
+     {"p.py": "class A:\n    def f(self, a: str) -> int:\n        return 1\n"}),
+    # ---- multiple inheritance
+    ("mro-first-base-gains", {"p.py": "class A:\n    pass\nclass M:\n    def m(self) -> int:\n        return 1\n",
+                              "c.py": "from p import A, M\nclass C(A, M):\n    pass\ndef f(c: C) -> int:\n    return c.m()\n"},
+     {"p.py": "class A:\n    def m(self) -> str:\n        return ''\nclass M:\n    def m(self) -> int:\n        return 1\n"}),
+    ("mro-second-base-attr", {"p.py": "class A:\n    pass\nclass M:\n    x: int = 0\n", "q.py": "from p import A, M\nclass B(A, M):\n    pass\n",
+                              "c.py": "from q import B\ndef f(b: B) -> None:\n    y: int = b.x\n"},
+     {"p.py": "class A:\n    pass\nclass M:\n    x: str = ''\n"}),
+    # ---- metaclass attribute, property setter, reversed comparison
+    ("metaclass-attr", {"p.py": "class Meta(type):\n    x: int = 0\n", "q.py": "from p import Meta\nclass K(metaclass=Meta):\n    pass\n",
+                        "c.py": "from q import K\ndef f() -> None:\n    y: int = K.x\n"},
+     {"p.py": "class Meta(type):\n    x: str = ''\n"}),
+    ("property-setter", {"p.py": "class A:\n    @property\n    def x(self) -> int:\n        return 1\n    @x.setter\n    def x(self, v: int) -> None:\n        pass\n",
+                         "q.py": "from p import A\nclass B(A):\n    pass\n", "c.py": "from q import B\ndef f(b: B) -> None:\n    b.x = 1\n"},
+     {"p.py": "class A:\n    @property\n    def x(self) -> int:\n        return 1\n    @x.setter\n    def x(self, v: str) -> None:\n        pass\n"}),
+    ("op-gt-reversed", {"p.py": "class A:\n    def __gt__(self, o: int) -> bool:\n        return True\n", "q.py": "from p import A\nclass B(A):\n    pass\n",
+                        "c.py": "from q import B\ndef f(b: B) -> None:\n    1 < b\n"},
+     {"p.py": "class A:\n    def __gt__(self, o: str) -> bool:\n        return True\n"}),
+    ("op-rsub", {"p.py": "class A:\n    def __rsub__(self, o: int) -> int:\n        return 1\n", "q.py": "from p import A\nclass B(A):\n    pass\n",
+                 "c.py": "from q import B\ndef f(b: B) -> None:\n    y: int = 1 - b\n"},
+     {"p.py": "class A:\n    def __rsub__(self, o: int) -> str:\n        return ''\n"}),
+    # ---- aststrip: assignment lvalue definitions (attributes / variables defined by the reprocessed target)
+    ("lvalue-self-attr", {"p.py": "def g() -> int:\n    return 1\n",
+                          "c.py": "import p\nclass K:\n    def __init__(self) -> None:\n        self.a = p.g()\n    def use(self) -> int:\n        return self.a\n"},
+     {"p.py": "def g() -> str:\n    return ''\n"}),
+    ("lvalue-self-attr-tuple", {"p.py": TYP + "from typing import Tuple\ndef g() -> Tuple[int, int]:\n    return (1, 1)\n",
+                                "c.py": "import p\nclass K:\n    def __init__(self) -> None:\n        self.a, self.b = p.g()\n    def use(self) -> int:\n        return self.b\n"},
+     {"p.py": TYP + "from typing import Tuple\ndef g() -> Tuple[int, str]:\n    return (1, '')\n"}),
+    ("lvalue-module-var", {"p.py": "def g() -> int:\n    return 1\n", "c.py": "import p\nv = p.g()\ndef f() -> int:\n    return v\n"},
+     {"p.py": "def g() -> str:\n    return ''\n"}),
+    ("lvalue-class-var", {"p.py": "def g() -> int:\n    return 1\n", "c.py": "import p\nclass K:\n    a = p.g()\ndef f(k: K) -> int:\n    return k.a\n"},
+     {"p.py": "def g() -> str:\n    return ''\n"}),
+    ("lvalue-final", {"p.py": "def g() -> int:\n    return 1\n", "c.py": TYP + "import p\nF: Final = p.g()\ndef f() -> int:\n    return F\n"},
+     {"p.py": "def g() -> str:\n    return ''\n"}),
+    # ---- aststrip: for / with inferred types at top level, decorators and class definitions in the reprocessed module
+    ("for-toplevel", {"p.py": TYP + "from typing import Iterator\nclass A:\n    def __iter__(self) -> Iterator[int]:\n        return None  # type: ignore\n",
+                      "c.py": "import p\nfor e in p.A():\n    y: int = e\n"},
+     {"p.py": TYP + "from typing import Iterator\nclass A:\n    def __iter__(self) -> Iterator[str]:\n        return None  # type: ignore\n"}),
+    ("with-toplevel", {"p.py": "class A:\n    def __enter__(self) -> int:\n        return 1\n    def __exit__(self, a: object, b: object, c: object) -> None:\n        pass\n",
+                       "c.py": "import p\nwith p.A() as e:\n    y: int = e\n"},
+     {"p.py": "class A:\n    def __enter__(self) -> str:\n        return ''\n    def __exit__(self, a: object, b: object, c: object) -> None:\n        pass\n"}),
+    ("decorator-local-func", {"p.py": TYP + "def deco(f: Callable[..., int]) -> Callable[..., int]:\n    return f\n",
+                              "c.py": "import p\n@p.deco\ndef g(a: int) -> int:\n    return a\ndef f() -> None:\n    y: int = g(1)\n"},
+     {"p.py": TYP + "def deco(f: Callable[..., int]) -> Callable[..., str]:\n    return f  # type: ignore\n"}),
+    ("decorator-local-method", {"p.py": TYP + "def deco(f: Callable[..., int]) -> Callable[..., int]:\n    return f\n",
+                                "c.py": "import p\nclass K:\n    @p.deco\n    def m(self, a: int) -> int:\n        return a\ndef f(k: K) -> None:\n    y: int = k.m(1)\n"},
+     {"p.py": TYP + "def deco(f: Callable[..., int]) -> Callable[..., str]:\n    return f  # type: ignore\n"}),
+    ("classdef-local-base", {"p.py": "class A:\n    x: int = 0\n", "c.py": "import p\nclass K(p.A):\n    pass\ndef f() -> None:\n    y: int = K().x\n"},
+     {"p.py": "class A:\n    x: str = ''\n"}),
+    ("classdef-local-base-kind", {"p.py": "class A:\n    x: int = 0\n", "c.py": "import p\nclass K(p.A):\n    pass\ndef f() -> None:\n    y: int = K().x\n"},
+     {"p.py": "A = 1\n"}),
+    ("classdef-local-generic-base", {"p.py": GEN_X, "c.py": "import p\nclass K(p.X[int]):\n    pass\ndef f(k: K) -> str:\n    return k.get()\n"},
+     {"p.py": GEN_X.replace("def get(self) -> T:\n        return None  # type: ignore", "def get(self) -> List[T]:\n        return []")}),
+    ("classdef-local-namedtuple", {"p.py": "Al = int\n", "c.py": TYP + "import p\nclass NT(NamedTuple):\n    a: p.Al\ndef f(n: NT) -> int:\n    return n.a\n"},
+     {"p.py": "Al = str\n"}),
+    ("classdef-local-dataclass", {"p.py": "Al = int\n", "c.py": "from dataclasses import dataclass\nimport p\n@dataclass\nclass D:\n    a: p.Al\ndef f() -> None:\n    D(1)\n"},
+     {"p.py": "Al = str\n"}),
+    ("overload-local", {"p.py": "Al = int\n", "c.py": TYP + "from typing import overload\nimport p\n@overload\ndef g(a: p.Al) -> int: ...\n@overload\ndef g(a: bytes) -> str: ...\ndef g(a: Any) -> Any:\n    return a\ndef f() -> None:\n    y: int = g(1)\n"},
+     {"p.py": "Al = str\n"}),
+    # ---- aststrip: ImportFrom / ImportAll assignments
+    ("import-all-var", {"p.py": "v: int = 0\n", "c.py": "from p import *\ndef f() -> int:\n    return v\n"},
+     {"p.py": "v: str = ''\n"}),
+    ("import-all-removed", {"p.py": "v: int = 0\n", "c.py": "from p import *\ndef f() -> int:\n    return v\n"},
+     {"p.py": "w: int = 0\n"}),
+    ("import-from-to-module-attr", {"p.py": "v: int = 0\n", "c.py": "from p import v as w\nz = w\ndef f() -> int:\n    return z\n"},
+     {"p.py": "v: str = ''\n"}),
+    # ---- remaining visit_* of deps.py and type triggers
+    ("del-item", {"p.py": "class A:\n    def __delitem__(self, i: int) -> None:\n        pass\n", "q.py": "from p import A\nclass B(A):\n    pass\n",
+                  "c.py": "from q import B\ndef f(b: B) -> None:\n    del b[0]\n"},
+     {"p.py": "class A:\n    def __delitem__(self, i: str) -> None:\n        pass\n"}),
+    ("type-application-call", {"p.py": GEN_X, "c.py": "import p\ndef f() -> str:\n    return p.X[int]().get()\n"},
+     {"p.py": GEN_X.replace("def get(self) -> T:\n        return None  # type: ignore", "def get(self) -> str:\n        return ''")}),
+    ("list-comprehension-iter", {"p.py": TYP + "from typing import Iterator\nclass A:\n    def __iter__(self) -> Iterator[int]:\n        return None  # type: ignore\n",
+                                 "q.py": "from p import A\nclass B(A):\n    pass\n", "c.py": TYP + "from q import B\ndef f(b: B) -> None:\n    y: List[int] = [e for e in b]\n"},
+     {"p.py": TYP + "from typing import Iterator\nclass A:\n    def __iter__(self) -> Iterator[str]:\n        return None  # type: ignore\n"}),
+    ("iterable-protocol-arg", {"p.py": TYP + "from typing import Iterator\nclass A:\n    def __iter__(self) -> Iterator[int]:\n        return None  # type: ignore\n",
+                               "q.py": "from p import A\nclass B(A):\n    pass\n",
+                               "c.py": "from typing import Iterable\nfrom q import B\ndef g(a: Iterable[int]) -> None:\n    pass\ndef f(b: B) -> None:\n    g(b)\n"},
+     {"p.py": TYP + "from typing import Iterator\nclass A:\n    def __iter__(self) -> Iterator[str]:\n        return None  # type: ignore\n"}),
+    ("assert-type", {"p.py": "class A:\n    x: int = 0\n", "q.py": "from p import A\nclass B(A):\n    pass\n",
+                     "c.py": "from typing import assert_type\nfrom q import B\ndef f(b: B) -> None:\n    assert_type(b.x, int)\n"},
+     {"p.py": "class A:\n    x: str = ''\n"}),
+    ("eq-dunder", {"p.py": "class A:\n    def __eq__(self, o: object) -> bool:\n        return True\n", "q.py": "from p import A\nclass B(A):\n    pass\n",
+                   "c.py": "from q import B\ndef f(b: B) -> None:\n    y: bool = b == 1\n"},
+     {"p.py": "class A:\n    def __eq__(self, o: object) -> int:  # type: ignore[override]\n        return 1\n"}),
+    ("type-of-class-param", {"p.py": "class A:\n    def __init__(self) -> None:\n        pass\n", "q.py": "from p import A\nclass B(A):\n    pass\n",
+                             "c.py": "from typing import Type\nfrom q import B\ndef f(t: Type[B]) -> None:\n    t()\n"},
+     {"p.py": "class A:\n    def __init__(self, a: int) -> None:\n        pass\n"}),
+    ("callable-param-type", {"p.py": "class A:\n    x: int = 0\n", "q.py": "from p import A\nclass B(A):\n    pass\n",
+                             "c.py": TYP + "from q import B\ndef f(cb: Callable[[], B]) -> None:\n    y: int = cb().x\n"},
+     {"p.py": "class A:\n    x: str = ''\n"}),
+    ("optional-param-type", {"p.py": "class A:\n    x: int = 0\n", "q.py": "from p import A\nclass B(A):\n    pass\n",
+                             "c.py": TYP + "from q import B\ndef f(b: Optional[B]) -> int:\n    if b:\n        return b.x\n    return 0\n"},
+     {"p.py": "class A:\n    x: str = ''\n"}),
+    ("tuple-param-type", {"p.py": "class A:\n    x: int = 0\n", "q.py": "from p import A\nclass B(A):\n    pass\n",
+                          "c.py": "from typing import Tuple\nfrom q import B\ndef f(t: Tuple[B, int]) -> int:\n    return t[0].x\n"},
+     {"p.py": "class A:\n    x: str = ''\n"}),
+    ("nested-func-use", {"p.py": "def g() -> int:\n    return 1\n", "c.py": "import p\ndef f() -> None:\n    def inner() -> int:\n        return p.g()\n"},
+     {"p.py": "def g() -> str:\n    return ''\n"}),
+    ("lambda-use", {"p.py": "def g() -> int:\n    return 1\n", "c.py": TYP + "import p\ndef f() -> None:\n    h: Callable[[], int] = lambda: p.g()\n"},
+     {"p.py": "def g() -> str:\n    return ''\n"}),
+]
+
+
+def dk_scenarios() -> list[tuple[str, dict[str, str], dict[str, Any]]]:
+    out = []
+    for name, p0, p1, q, c in DK:
+        files = {"q.py": q, "c.py": c}
+        files["p.py"] = p0
+        out.append((name, files, {"p.py": p1}))
+    return out + DK2
+
+
 def dk_histories(quick: bool) -> list[dict[str, Any]]:
     out = []
-    for i, (name, p0, p1, q, c) in enumerate(DK):
-        for j, (follow, cmd) in enumerate((("error", ["@all"]), ("normal", ["c.py"]))):
+    for i, (name, files, edit) in enumerate(dk_scenarios()):
+        after = dict(files)
+        for pth, t in edit.items():
+            if t is None:
+                after.pop(pth, None)
+            else:
+                after[pth] = t
+        roots = ["c.py"]
+        for j, (follow, cmd) in enumerate((("error", ["@all"]), ("normal", roots))):
             for rev in (False, True):
                 if quick and (i + j + rev) % 2 == 1:
                     continue        # half of the combinations in the quick tier
-                a, b = (p1, p0) if rev else (p0, p1)
-                if a is None:
-                    files0 = {"q.py": q, "c.py": c}
-                else:
-                    files0 = {"p.py": a, "q.py": q, "c.py": c}
-                def st(text, desc):
-                    return {"write": {"p.py": text}, "desc": desc, "how": "check"} if text is not None else {"delete": ["p.py"], "desc": desc, "how": "check"}
-                steps = [st(b, "dk:" + name), st(a, "dk:" + name), st(b, "dk:" + name)]
-                h = {"id": f"dk-{name}-{follow[0]}{int(rev)}", "files0": files0, "steps": steps, "follow": follow, "cmd": cmd,
-                     "lib": "fixture", "monitor": True, "stream": "dk"}
+                a, b = (after, files) if rev else (files, after)
+
+                def st(frm: dict[str, str], to: dict[str, str]) -> dict[str, Any]:
+                    w = {pth: t for pth, t in to.items() if frm.get(pth) != t}
+                    d = [pth for pth in frm if pth not in to]
+                    s_: dict[str, Any] = {"write": w, "desc": "dk:" + name, "how": "check"}
+                    if d:
+                        s_["delete"] = d
+                    return s_
+                h = {"id": f"dk-{name}-{follow[0]}{int(rev)}", "files0": dict(a), "steps": [st(a, b), st(b, a), st(a, b)],
+                     "follow": follow, "cmd": cmd, "lib": "fixture", "monitor": True, "stream": "dk"}
                 fix_how(h)
                 out.append(h)
     return out
@@ -1715,7 +1885,7 @@ def repro_text(h: dict[str, Any]) -> str:
 
 def build_histories(ctx: vlib.Ctx) -> tuple[list[dict[str, Any]], dict[str, int]]:
     hists: list[dict[str, Any]] = []
-    n_tame, n_wild = ctx.n(40, 360), ctx.n(12, 140)
+    n_tame, n_wild = ctx.n(32, 360), ctx.n(12, 140)
     for i in range(n_tame):
         m = dict(MODES[i % 4]); m.update({"wild": False, "monitor": True, "trace": i % 5 == 0, "stream": "tame"})
         hists.append(gen_history(ctx.seed, i, m))
@@ -1740,7 +1910,7 @@ def build_histories(ctx: vlib.Ctx) -> tuple[list[dict[str, Any]], dict[str, int]
         except Exception as e:  # noqa
             ctx.log("cannot parse", f, repr(e))
     if ctx.quick:
-        tests = vlib.Rng(ctx.seed, "tests").sample(tests, min(len(tests), 40))
+        tests = vlib.Rng(ctx.seed, "tests").sample(tests, min(len(tests), 40))[:30]
     for t in tests:
         t["monitor"] = False
         t["stream"] = "tests"
